@@ -18,7 +18,7 @@ func init() {
 	register(&Check{
 		ID: "C12", Level: "exploration", Primary: "orders", EvalCount: "fences_checked", RaceIsViolation: true,
 		Rule: "one evaluation = a fresh server, a PRNG-chosen order of Stop relative to Run (Stop before Run; Stop 0-300us after Run was started; Stop after Ready) and, when serving, a PRNG-chosen connection state " +
-			"(connect storm with accepts in flight, handlers parked and released by a timer only after Stop was called - 5..45ms later, now and then 1.2..2.6s later -, ldaps sessions ended with close_notify / bare FIN / reset just before Stop, slow OnClose callback held 20-120ms by the harness, clients tearing down, idle connections), " +
+			"(connect storm with accepts in flight, handlers parked and released by a timer only after Stop was called - 5..45ms later, now and then 1.2..2.6s later -, ldaps sessions ended with close_notify / bare FIN / reset just before Stop, slow OnClose callback held 20-120ms by the harness, clients tearing down, idle connections, handlers whose client hung up, a held unbind-route handler, ldaps handlers parked, an OnClose callback still running while no connection is open any more), " +
 			"optionally a concurrent or later second Stop. At the fence (the instant both Stop and Run have returned) the monitor requires: no handler in flight, no OnClose in progress, one completed OnClose for every " +
 			"connection ID a handler ever saw, every served client connection closed, dial refused, the address bindable again; and over a 300ms tail no event stamped after the fence. Runs under the race detector. " +
 			"distinct_nontrivial = distinct (order, state, second-Stop, observed Ready-at-Stop) combinations",
